@@ -87,4 +87,6 @@ Definition msg_bytes_full (m : imsg) : string :=
       end).
 
 Definition max_length : nat := 510.
-Definition msg_bytes (m : imsg) : string := stake max_length (msg_bytes_full m).
+(* send(): string(trimPartialRune(msg.Bytes())) — Message.Bytes cuts after 510 bytes, send() removes the fragment of
+   a UTF-8 sequence the cut may leave at the end *)
+Definition msg_bytes (m : imsg) : string := trim_partial_rune (stake max_length (msg_bytes_full m)).
